@@ -139,6 +139,8 @@ def tlc(module, cfg, workdir=None, workers=None, timeout=900, extra=(), files=()
         t0 = time.time()
         p = subprocess.run(cmd, cwd=wd, env=env, stdout=subprocess.PIPE, stderr=subprocess.STDOUT, text=True)
         res = TLCResult(p.returncode, p.stdout, time.time() - t0)
+        if simulate and p.returncode == 0 and not res.errors:
+            res.ok = True
         if p.returncode == 124:
             raise Inconclusive("TLC timed out after %ss on %s/%s" % (timeout, module, cfg))
         if "java.lang.OutOfMemoryError" in res.out or "StackOverflowError" in res.out:
@@ -306,8 +308,9 @@ class Check:
         ev = {"property_id": self.prop, "tier": self.tier, "seed": self.seed, "level": self.level,
               "coverage": cov, "assumptions": self.assumptions, "wall_s": round(wall, 2),
               "violations": len(self.violations)}
-        os.makedirs(os.path.join(VERIF, "evidence"), exist_ok=True)
-        with open(os.path.join(VERIF, "evidence", self.prop + ".json"), "w") as fh:
+        evdir = os.path.join(VERIF, "evidence") if REPO == "/repo" else os.path.join(BUILD, "evidence-alt")
+        os.makedirs(evdir, exist_ok=True)
+        with open(os.path.join(evdir, self.prop + ".json"), "w") as fh:
             json.dump(ev, fh, indent=1, sort_keys=True, default=str)
         for key, (k, n) in sorted(self.known_hits.items()):
             print("KNOWN-FINDING: property=%s %s (%s; %d failing cases absorbed)" % (self.prop, k["what"], key, n))
